@@ -6,6 +6,9 @@
 (*   - the predicates pin the result down (up to zero-width characters at the edge),          *)
 (*   - the algorithms AS URWID CODES THEM (calc_trim_text on top of calc_text_pos, the        *)
 (*     double-byte offset search, the SO/SI charset splitter) satisfy the contract,           *)
+(*   - the active encoding is state: action SetEncoding re-reads the bytes of the text under  *)
+(*     a single-byte encoding (and back); the laws hold for whichever reading is active and   *)
+(*     an implementation that keeps answering for the PREVIOUS encoding is refuted,           *)
 (*   - deliberately wrong variants are refuted: invariant WrongVariantsRefuted HOLDS (every  *)
 (*     wrong variant has a refuting text), each Wrong*Accepted invariant alone is VIOLATED.   *)
 EXTENDS StrUtilOps
@@ -25,18 +28,25 @@ Class == <<
   [w |-> 1, b |-> 1, cp |-> 9472,   enc |-> <<63>>]                    \* 8 DEC glyph the codec cannot encode
 >>
 
-VARIABLES text, i, j
-vars == <<text, i, j>>
+VARIABLES text, i, j,
+          enc      \* the active encoding: "own" = the one the text was written in, "narrow" = a single-byte encoding
+vars == <<text, i, j, enc>>
 
 \* texts grow one character at a time from the empty text with i = j = 0; from there any boundary pair is picked
 \* (built with Next rather than as initial states so that TLC's workers share the invariant evaluation)
-Init == text = <<>> /\ i = 0 /\ j = 0
-Next == /\ i = 0 /\ j = 0
-        /\ \/ /\ Len(text) < MaxLen
-              /\ \E c \in ClassIds : text' = Append(text, Class[c])
-              /\ UNCHANGED <<i, j>>
-           \/ /\ \E a \in 0..Len(text) : \E b \in a..Len(text) : <<a, b>> # <<0, 0>> /\ i' = a /\ j' = b
-              /\ UNCHANGED text
+Init == text = <<>> /\ i = 0 /\ j = 0 /\ enc = "own"
+\* urwid.set_encoding: the bytes stay, what they mean changes (the texts are written under "own"; under "narrow" they are read)
+SetEncoding == /\ i = 0 /\ j = 0 /\ text # <<>>
+               /\ enc' = IF enc = "own" THEN "narrow" ELSE "own"
+               /\ UNCHANGED <<text, i, j>>
+Next == \/ /\ i = 0 /\ j = 0 /\ enc = "own"
+           /\ \/ /\ Len(text) < MaxLen
+                 /\ \E c \in ClassIds : text' = Append(text, Class[c])
+                 /\ UNCHANGED <<i, j>>
+              \/ /\ \E a \in 0..Len(text) : \E b \in a..Len(text) : <<a, b>> # <<0, 0>> /\ i' = a /\ j' = b
+                 /\ UNCHANGED text
+           /\ UNCHANGED enc
+        \/ SetEncoding
 Spec == Init /\ [][Next]_vars
 
 s == Offs(text, i)
@@ -67,6 +77,25 @@ TrimPinned == \A r \in Ranges : \A rs \in s..e : \A re \in rs..e : \A pl \in {0,
                     /\ CalcWidth(text, Min({rs, t[1]}), Max({rs, t[1]})) = 0
 TrimStrBytesAgree == \A r \in Ranges : LET u == RefTrim(U, i, j, r[1], r[2]) IN
                        RefTrim(text, s, e, r[1], r[2]) = <<Offs(text, u[1]), Offs(text, u[2]), u[3], u[4]>>
+
+\* ---------------------------------------------------------------- one byte string, two encodings
+\* what the contract demands of the SAME bytes once a single-byte encoding is active: the character boundaries of the old
+\* reading are boundaries of the new one, every byte is one column (whatever the bytes meant before), the offset search counts
+\* bytes and stepping moves one byte -- all of it through the very operators the other laws use, on the active reading
+Active == IF enc = "own" THEN text ELSE NarrowView(AllBytes(text))
+ReadingsOfOneByteString ==
+  enc = "narrow" =>
+    LET nv == Active IN
+    /\ SameBytes(nv, text) /\ Total(nv) = Total(text) /\ Boundaries(text) \subseteq Boundaries(nv)
+    /\ \A a \in 0..Len(text) : \A b \in a..Len(text) :
+         LET s0 == Offs(text, a)
+             e0 == Offs(text, b)
+         IN /\ CalcWidth(nv, s0, e0) = e0 - s0
+            /\ \A m \in a..b : CalcWidth(nv, s0, e0) = CalcWidth(nv, s0, Offs(text, m)) + CalcWidth(nv, Offs(text, m), e0)
+            /\ \A col \in 0..(e0 - s0 + 1) :
+                 LET r == RefPos(nv, s0, e0, col) IN
+                 PosOK(nv, s0, e0, col, r[1], r[2]) /\ r = <<Min({e0, s0 + col}), Min({e0 - s0, col})>>
+            /\ (a < b => MoveNext(nv, s0) = s0 + 1 /\ MovePrev(nv, e0) = e0 - 1)
 
 \* ---------------------------------------------------------------- the algorithms as coded satisfy the contract
 \* util.calc_trim_text, with calc_text_pos idealised as RefPos
@@ -128,6 +157,10 @@ WrongTrimAcceptedAt(cs, a, b) ==
 WrongTrimNoPadAcceptedAt(cs, a, b) ==
   LET s0 == Offs(cs, a)  e0 == Offs(cs, b) IN
   \A r \in RangesOf(WidthIdx(cs, a, b)) : LET t == RefTrim(cs, s0, e0, r[1], r[2]) IN TrimOK(cs, s0, e0, r[1], r[2], t[1], t[2], 0, 0)
+\* a width function that keeps the answer it gave for these bytes under the PREVIOUS encoding (a result cache that does not
+\* know about set_encoding): accepted only where the old reading and the single-byte reading happen to be equally wide
+WrongStaleWidthAcceptedAt(cs, a, b) ==
+  LET s0 == Offs(cs, a)  e0 == Offs(cs, b) IN CalcWidth(cs, s0, e0) = CalcWidth(NarrowView(AllBytes(cs)), s0, e0)
 \* charset runs that forget the alternate charset
 WrongEncodeAcceptedAt(cs) == Rep("n", Len(EncodeBytes(cs, TRUE))) = EncodeTags(cs, TRUE)
 
@@ -137,12 +170,13 @@ WrongPosLateAccepted == WrongPosLateAcceptedAt(text, i, j)
 WrongPrevAccepted == WrongPrevAcceptedAt(text, i, j)
 WrongTrimAccepted == WrongTrimAcceptedAt(text, i, j)
 WrongTrimNoPadAccepted == WrongTrimNoPadAcceptedAt(text, i, j)
+WrongStaleWidthAccepted == WrongStaleWidthAcceptedAt(text, i, j)
 \* ... and as one invariant that HOLDS: evaluated once, in the initial state, every wrong variant has a refuting text
 SmallTexts == UNION {[1..n -> {Class[c] : c \in ClassIds}] : n \in 0..2}
 Refutes(V(_, _, _)) == \E cs \in SmallTexts : \E a \in 0..Len(cs) : \E b \in a..Len(cs) : ~V(cs, a, b)
 WrongVariantsRefuted ==
-  (text = <<>> /\ i = 0 /\ j = 0) =>
+  (text = <<>> /\ i = 0 /\ j = 0 /\ enc = "own") =>
      /\ Refutes(WrongPosAcceptedAt) /\ Refutes(WrongPosLateAcceptedAt) /\ Refutes(WrongPrevAcceptedAt)
-     /\ Refutes(WrongTrimAcceptedAt) /\ Refutes(WrongTrimNoPadAcceptedAt)
+     /\ Refutes(WrongTrimAcceptedAt) /\ Refutes(WrongTrimNoPadAcceptedAt) /\ Refutes(WrongStaleWidthAcceptedAt)
      /\ \E cs \in SmallTexts : ~WrongEncodeAcceptedAt(cs)
 =============================================================================
